@@ -753,7 +753,7 @@ class AffVec:
                 t = t + a * c
             return t
         if A.ndim == 2 and left:
-            return AffVec([AffVec(self.items)._mat(np.asarray(r, dtype=object), True) if False else _rowdot(r, self.items) for r in rows])
+            return AffVec([_rowdot(r, self.items) for r in rows])
         raise NotAffine("matmul form")
 
     def __rmatmul__(self, A): return self._mat(A, True)
@@ -899,6 +899,240 @@ def expect_oracle(case, lp):
     return fails
 
 
+DTYPES = [("int", None), ("list", "list"), ("int8", np.int8), ("uint8", np.uint8), ("int16", np.int16), ("uint16", np.uint16),
+          ("int32", np.int32), ("uint32", np.uint32), ("int64", np.int64), ("uint64", np.uint64), ("float16", np.float16),
+          ("float32", np.float32), ("float64", np.float64), ("bool", np.bool_)]
+# scalars that overflow the narrow integer types when folded into an array of that type
+BIG = {"int8": 200, "uint8": 300, "int16": 70000, "uint16": 70000, "int32": 2 ** 33, "uint32": 2 ** 33, "bool": 5}
+
+
+def _arr(vals, dt, layout="c"):
+    """the user's coefficient array of a given dtype / container / memory layout (values valid in the dtype)"""
+    if dt == "list":
+        return [float(v) for v in vals]
+    if dt is None:
+        a = np.array([int(v) for v in vals])
+    elif dt is np.bool_:
+        a = np.array([bool(int(v) % 2) for v in vals])
+    else:
+        a = np.array(vals).astype(dt)
+    if layout == "strided":
+        b = np.zeros(2 * len(a), dtype=a.dtype); b[::2] = a
+        return b[::2]
+    if layout == "reversed":
+        return a[::-1].copy()[::-1]
+    return a
+
+
+def _scalar(k, dt):
+    if dt in (None, "list"):
+        return k
+    if dt is np.bool_:
+        return np.bool_(bool(k % 2))
+    return dt(k)
+
+
+def typed_cases(rng):
+    """numeric TYPES: every dtype / container / memory layout for coefficient arrays, matmul matrices and scalar
+    factors, incl. scalars that overflow the array's dtype if optyx folds them into it"""
+    from optyx import Variable, VectorVariable
+
+    out = []
+
+    def setup():
+        return {"x": VectorVariable("x", 3, lb=0, ub=9), "y": Variable("y", lb=-2)}
+
+    for dn, dt in DTYPES:
+        big = BIG.get(dn, 1000)
+        small = 3 if dn != "bool" else 1
+        for layout in (("c", "strided", "reversed") if dt not in ("list",) else ("c",)):
+            def forms(dn=dn, dt=dt, layout=layout, big=big, small=small):
+                A2 = [[1, 2, 3], [3, 0, 1]]
+
+                def mk(vals, B, arrays):
+                    a = _arr(vals, dt, layout)
+                    if not B.exact:
+                        arrays.append(a)
+                    return a
+
+                def mat(B, arrays, fortran=False):
+                    if dt == "list":
+                        return [[float(v) for v in r] for r in A2]
+                    a = np.array(A2) if dt is None else (np.array(A2) % 2 == 1 if dt is np.bool_ else np.array(A2).astype(dt))
+                    a = np.asfortranarray(a) if fortran else a
+                    if not B.exact:
+                        arrays.append(a)
+                    return a
+                sc = lambda k: _scalar(k, dt)
+                x, y = (lambda B: B.vec("x")), (lambda B: B.var("y"))
+                return [
+                    ("c@x", lambda B, A: (mk([1, 2, 3], B, A) @ x(B), "min", [B.le(x(B).sum(), 4)])),
+                    ("x@c", lambda B, A: (x(B) @ mk([1, 2, 3], B, A), "max", [B.le(x(B).sum(), 4)])),
+                    ("big*(c@x)", lambda B, A: (big * (mk([1, 2, 3], B, A) @ x(B)), "min", [B.ge(mk([1, 0, 3], B, A) @ x(B), 1)])),
+                    ("(c@x)*big-1", lambda B, A: ((mk([1, 2, 3], B, A) @ x(B)) * big - 1, "min", [])),
+                    ("-(c@x)", lambda B, A: (-(mk([1, 2, 3], B, A) @ x(B)), "max", [B.eq(mk([3, 2, 1], B, A) @ x(B), 2)])),
+                    ("(c@x)/2", lambda B, A: ((mk([1, 2, 3], B, A) @ x(B)) / 2, "min", [])),
+                    ("1.5-(c@x)", lambda B, A: (1.5 - (mk([1, 2, 3], B, A) @ x(B)), "min", [])),
+                    ("c@(x+1)", lambda B, A: (mk([1, 2, 3], B, A) @ (x(B) + 1), "min", [B.le(mk([1, 2, 3], B, A) @ (x(B) + 1), 10)])),
+                    ("c@(big*x)", lambda B, A: (mk([1, 2, 3], B, A) @ (big * x(B)), "min", [])),
+                    ("c@(x*big-y)", lambda B, A: (mk([1, 2, 3], B, A) @ (x(B) * big - 1), "min", [])),
+                    ("ones@matmul", lambda B, A: (np.array([1.0, 1.0]) @ B.matmul(mat(B, A), x(B)), "min", [])),
+                    ("c2@matmulF", lambda B, A: (mk([2, 1], B, A) @ B.matmul(mat(B, A, True), x(B)), "min", [])),
+                    ("matmul[i]<=", lambda B, A: (x(B).sum(), "min", [B.le(B.matmul(mat(B, A), x(B))[0], 3), B.ge(B.matmul(mat(B, A), x(B))[1], sc(1))])),
+                    ("s*y+vs", lambda B, A: (sc(small) * y(B) + x(B).sum(), "min", [])),
+                    ("y*s", lambda B, A: (y(B) * sc(small) - x(B)[0], "max", [B.le(y(B) * sc(small), sc(1))])),
+                    ("y/s", lambda B, A: (y(B) / sc(2 if small > 1 else 1) + x(B)[1], "min", [])),
+                    ("s*vs", lambda B, A: (sc(small) * x(B).sum(), "min", [B.le(x(B).sum() * sc(small), 7)])),
+                    ("y+s", lambda B, A: (y(B) + sc(1) + x(B)[0], "min", [B.eq(y(B) - sc(1), x(B)[2])])),
+                    ("s-y", lambda B, A: (sc(1) - y(B), "max", [B.ge(sc(small) - x(B).sum(), 0)])),
+                    ("s*(c@x)", lambda B, A: (sc(small) * (mk([1, 2, 3], B, A) @ x(B)), "min", [])),
+                    ("c@x<=s", lambda B, A: (x(B).sum(), "min", [B.le(mk([1, 2, 3], B, A) @ x(B), sc(small)), B.ge(mk([1, 2, 3], B, A) @ x(B), 0.5)])),
+                    ("0d*y", lambda B, A: (np.array(small if dt in (None, "list") else sc(small)) * y(B) + x(B)[0], "min", [])),
+                    ("K(s)*x", lambda B, A: (B.const(sc(small)) * x(B)[0] + B.const(sc(1)), "min", [B.le(x(B)[0] * B.const(sc(small)), B.const(sc(1)))])),
+                ]
+            for fn, build in forms():
+                r = mirror_case(f"typed:{dn}:{layout}:{fn}", setup, build)
+                out.append(r if isinstance(r, Case) else (f"typed:{dn}:{layout}:{fn}", r))
+    return out
+
+
+def wrapper_cases(rng):
+    """operator forms: every wrapper (reflected and plain, nested) around every vector reduction node at the ROOT of
+    an objective / constraint, and on both sides of a constraint"""
+    from optyx import Variable, VectorVariable, MatrixVariable
+
+    def setup():
+        return {"x": VectorVariable("x", 3, lb=0), "y": Variable("y"), "M": MatrixVariable("M", 2, 2, lb=0)}
+
+    c = [2.0, -1.0, 0.5]
+    nodes = [
+        ("vs", lambda B: B.vec("x").sum()), ("lc", lambda B: np.array(c) @ B.vec("x")), ("lc.rev", lambda B: np.array(c) @ B.vec("x")[::-1]),
+        ("ps1", lambda B: (B.vec("x") ** 1).sum()), ("lc(x+1)", lambda B: np.array(c) @ (B.vec("x") + 1)),
+        ("lc(2x-x)", lambda B: np.array(c) @ (2 * B.vec("x") - B.vec("x")[::-1])), ("kvs", lambda B: 3 * B.vec("x").sum()),
+        ("mat[0]", lambda B: B.matmul(np.array([[1.0, 2.0, 0.0], [0.5, -1.0, 4.0]]), B.vec("x"))[0]), ("vs.slice", lambda B: B.vec("x")[0:2].sum()),
+        ("vs+y", lambda B: B.vec("x").sum() + B.var("y")),
+    ]
+    wraps = [
+        ("id", lambda e: e), ("k+e", lambda e: 1.5 + e), ("e+k", lambda e: e + 1.5), ("k-e", lambda e: 2 - e), ("e-k", lambda e: e - 2),
+        ("k*e", lambda e: 4 * e), ("e*k", lambda e: e * 0.5), ("e/k", lambda e: e / 4), ("-e", lambda e: -e), ("e**1", lambda e: e ** 1),
+        ("e+0", lambda e: e + 0), ("0+e", lambda e: 0 + e), ("1*e", lambda e: 1 * e), ("e*0", lambda e: e * 0), ("-(k-e)", lambda e: -(2 - e)),
+        ("(k*e+k)/k", lambda e: (2 * e + 3) / 2), ("k-(-e)*k", lambda e: 1 - (-e) * 2), ("(e-k)*k-k", lambda e: (e - 1) * 4 - 0.5),
+        ("-(-e)", lambda e: -(-e)), ("k*(k*e)", lambda e: 2 * (0.5 * e)), ("e-e", lambda e: e - e), ("e+e", lambda e: e + e),
+    ]
+    out = []
+    for nn, node in nodes:
+        for wn, w in wraps:
+            def build(B, A, node=node, w=w):
+                e = w(node(B))
+                x, y = B.vec("x"), B.var("y")
+                return e, "min", [B.le(w(node(B)), 3), B.ge(w(node(B)), y), B.eq(y - 1, w(node(B))), B.le(2, w(node(B)) + y) if False else B.ge(w(node(B)) + y, 2)]
+            r = mirror_case(f"wrap:{wn}:{nn}", setup, build)
+            out.append(r if isinstance(r, Case) else (f"wrap:{wn}:{nn}", r))
+    return out
+
+
+def view_cases(rng):
+    """every kind of vector-like object in the linear nodes: strided / reversed views, slices of slices, length-1,
+    matrix rows / columns / diagonals / blocks / transposes (of slices), symmetric matrices (shared off-diagonal
+    variables), 1×n and n×1 matrices, integer / binary domains, ≥ 11 elements, digits and clones in names"""
+    from optyx import Variable, VectorVariable, MatrixVariable
+
+    def setup():
+        x = VectorVariable("x", 5, lb=0, ub=3)
+        M = MatrixVariable("M", 3, 3, lb=-1)
+        S = MatrixVariable("S", 3, 3, symmetric=True, ub=5)
+        R = MatrixVariable("R", 1, 4)
+        C = MatrixVariable("C", 4, 1)
+        z = VectorVariable("z", 12, lb=0)                       # natural order ≠ lexicographic order
+        i = VectorVariable("i", 3, domain="integer", lb=0, ub=7)
+        b = VectorVariable("b", 2, domain="binary")
+        x2 = VectorVariable("x2", 3)                            # digits inside base names, prefixes of one another
+        x10 = VectorVariable("x10", 2)
+        xx = VectorVariable("x", 5, lb=0, ub=3)                 # a clone: same names, other objects
+        views = {
+            "x": x, "x[::2]": x[::2], "x[::-1]": x[::-1], "x[1:4]": x[1:4], "x[1:5][1:3]": x[1:5][1:3], "x[::-1][::2]": x[::-1][::2],
+            "x[4:5]": x[4:5], "x[3:0:-1]": x[3:0:-1], "M[0,:]": M[0, :], "M[:,2]": M[:, 2], "M.diag": M.diagonal(), "M.T[0,:]": M.T[0, :],
+            "M[0:2,1:3][1,:]": M[0:2, 1:3][1, :], "M[::2,::2][:,1]": M[::2, ::2][:, 1], "M[0:2,:].T[1,:]": M[0:2, :].T[1, :], "M[::-1,0]": M[::-1, 0],
+            "S[1,:]": S[1, :], "S[:,0]": S[:, 0], "S.diag": S.diagonal(), "S.T[2,:]": S.T[2, :], "S[0:2,0:2][:,1]": S[0:2, 0:2][:, 1],
+            "R[0,:]": R[0, :], "R[0,::-1]": R[0, ::-1], "C[:,0]": C[:, 0], "C.T[0,:]": C.T[0, :], "z": z, "z[::-1]": z[::-1], "z[9:12]": z[9:12],
+            "i": i, "i[::-1]": i[::-1], "b": b, "x2": x2, "x10": x10, "xx": xx, "xx[::-1]": xx[::-1],
+        }
+        views.update({"y": Variable("y", lb=-1), "x1": Variable("x1"), "x01": Variable("x01"), "x[0]a": Variable("x[0]a", ub=2.0),
+                      "x[2": Variable("x[2"), "S": S, "M": M})
+        return views
+
+    keys = ["x", "x[::2]", "x[::-1]", "x[1:4]", "x[1:5][1:3]", "x[::-1][::2]", "x[4:5]", "x[3:0:-1]", "M[0,:]", "M[:,2]", "M.diag", "M.T[0,:]",
+            "M[0:2,1:3][1,:]", "M[::2,::2][:,1]", "M[0:2,:].T[1,:]", "M[::-1,0]", "S[1,:]", "S[:,0]", "S.diag", "S.T[2,:]", "S[0:2,0:2][:,1]",
+            "R[0,:]", "R[0,::-1]", "C[:,0]", "C.T[0,:]", "z", "z[::-1]", "z[9:12]", "i", "i[::-1]", "b", "x2", "x10", "xx", "xx[::-1]"]
+    cs = [1.0, -2.0, 0.5, 4.0, 3.0, -1.0, 2.0, 8.0, -0.5, 1.5, 6.0, -3.0]
+    nodes = [
+        ("vs", lambda v: v.sum()), ("lc", lambda v: np.array(cs[:len(v)]) @ v), ("lc-k", lambda v: np.array(cs[:len(v)]) @ v - 2),
+        ("k*vs", lambda v: 2 * v.sum()), ("ps1", lambda v: (v ** 1).sum()), ("lc(v+1)", lambda v: np.array(cs[:len(v)]) @ (v + 1)),
+        ("lc(2v)", lambda v: np.array(cs[:len(v)]) @ (2 * v)), ("v@c", lambda v: v @ np.array(cs[:len(v)])), ("chain", lambda v: v[0] * 2 - v[len(v) - 1] + 1),
+    ]
+    extras = ["y", "x1", "x01", "x[0]a", "x[2"]
+    out = []
+    for ki, k in enumerate(keys):
+        for nn, node in nodes:
+            for mode in ("alone", "plus-other", "two-views"):
+                def build(B, A, k=k, node=node, mode=mode, ki=ki):
+                    v = B.vec(k)
+                    e = node(v)
+                    cons = [B.le(node(v), 4)]
+                    if mode == "plus-other":
+                        o = B.var(extras[ki % len(extras)])
+                        e = e + 3 * o
+                        cons.append(B.ge(o - node(v), -1))
+                    elif mode == "two-views":
+                        w = B.vec(keys[(ki * 7 + 3) % len(keys)])
+                        e = e - w.sum()
+                        cons.append(B.eq(node(v), np.array(cs[:len(w)]) @ w))
+                    return e, ("min" if ki % 2 else "max"), cons
+                r = mirror_case(f"view:{k}:{nn}:{mode}", setup, build)
+                out.append(r if isinstance(r, Case) else (f"view:{k}:{nn}:{mode}", r))
+    # trace / symmetric-matrix sums written element by element (shared off-diagonal variables counted twice)
+    def build_sym(B, A):
+        S = B.vec("S[1,:]"); S0 = B.vec("S[:,0]"); D = B.vec("S.diag")
+        e = S.sum() + S0.sum() + 2 * D.sum()
+        return e, "min", [B.le(S.sum() + S0.sum(), 5), B.eq(D.sum(), 1), B.ge(np.array([1.0, 2.0, 3.0]) @ S - np.array([3.0, 2.0, 1.0]) @ S0, 0)]
+    r = mirror_case("view:symmetric:rows+cols+trace", setup, build_sym)
+    out.append(r if isinstance(r, Case) else ("view:symmetric", r))
+    return out
+
+
+def magnitude_cases(rng):
+    """numeric magnitudes of every stored number: coefficients, scalar factors, divisors, constants, rhs, bounds.
+    Each variable gets contributions of one magnitude only (no cancellation), so a relative tolerance of 1e-12 per
+    entry is safe for float arithmetic and a dropped 1e-300 is still an error.  Oracle only (floats round)."""
+    from optyx import Variable, VectorVariable
+
+    specials = [0.0, 1e-300, -1e-300, 5e-324, 1e-12, -1e-9, 9.9e-9, 1e-8, 1.0000001e-8, -1e-7, 0.3, -7.0, 1e8, -1e16, 3e17, 1e300]
+    out = []
+    for mi, m in enumerate(specials):
+        m2 = specials[(mi + 5) % len(specials)]
+
+        def setup(m=m, m2=m2):
+            lb = m if abs(m) < 1e200 else None
+            return {"x": VectorVariable("x", 3, lb=lb, ub=(abs(m2) + abs(m) + 1.0)), "y": Variable("y", lb=-abs(m2) - 1.0, ub=m if m > -1.0 else None)}
+        forms = [
+            ("k*x", lambda B, A: (m * B.vec("x")[0] + B.var("y"), "min", [B.le(m * B.vec("x")[1], m2)])),
+            ("x*k+c", lambda B, A: (B.vec("x")[0] * m + m2, "min", [B.ge(B.vec("x")[2] * m2 - B.var("y"), m)])),
+            ("lc", lambda B, A: (np.array([m, 1.0, m2]) @ B.vec("x"), "max", [B.le(np.array([1.0, m, 0.0]) @ B.vec("x"), 1.0)])),
+            ("lc-rhs", lambda B, A: (B.vec("x").sum(), "min", [B.le(np.array([m, m2, 1.0]) @ B.vec("x") - m, 0), B.eq(np.array([m, 2.0, 1.0]) @ B.vec("x"), m2)])),
+            ("k*vs", lambda B, A: (m * B.vec("x").sum(), "min", [B.ge(B.vec("x").sum() * m2, 1.0)])),
+            ("K*x", lambda B, A: (B.const(m) * B.vec("x")[0] + B.const(m2) * B.var("y") + B.const(m), "min", [])),
+            ("lc(x+k)", lambda B, A: (np.array([1.0, 2.0, 4.0]) @ (B.vec("x") + m), "min", [])),
+            ("lc(k*x)", lambda B, A: (np.array([1.0, 2.0, 4.0]) @ (m * B.vec("x")), "min", [B.le(np.array([1.0, 0.0, 0.0]) @ (m2 * B.vec("x")), m)])),
+            ("matmul", lambda B, A: (np.array([1.0, 1.0]) @ B.matmul(np.array([[m, 0.0, 1.0], [0.0, m2, 0.0]]), B.vec("x")), "min", [])),
+        ]
+        if m != 0 and 1e-300 <= abs(m) <= 1e300:
+            forms.append(("x/k", lambda B, A: (B.vec("x")[0] / m + B.var("y"), "min", [B.le(B.var("y") / m, 1.0)])))
+        for fn, build in forms:
+            r = mirror_case(f"mag:{m!r}:{fn}", setup, build, corr=False, rel_tol=1e-12)
+            out.append(r if isinstance(r, Case) else (f"mag:{m!r}:{fn}", r))
+    return out
+
+
 class SkipPoint(Exception):
     pass
 
@@ -930,7 +1164,7 @@ def differs(mode, want, got):
     return abs(want - g) > 1e-9 * (1.0 + abs(want) + abs(g))
 
 
-def lp_oracle(P, lp, rng, tag):
+def lp_oracle(P, lp, rng, tag, values=True):
     """the property itself, checked on the real extraction result with exact rationals.
     returns a list of failure dicts (empty = holds)"""
     fails = []
@@ -959,7 +1193,7 @@ def lp_oracle(P, lp, rng, tag):
         fails.append({"what": "number of rows differs from the number of constraints of that kind",
                       "got": [len(Aub), len(bub), len(Aeq), len(beq)], "want": [len(ub), len(eq)]})
         return fails
-    for _ in range(3):
+    for _ in range(3 if values else 0):
         pt = {nm: Fraction(rng.randint(-5, 5)) for nm in names}
         xv = [pt[nm] for nm in names]
         dot = lambda row: sum((a * b for a, b in zip(row, xv)), Fraction(0))
@@ -1124,6 +1358,74 @@ def extract_real(P):
             return None, ex
 
 
+def history_checks(case, lp, impl, rng):
+    """the same Problem object observed again in other states / through other channels; returns failure dicts"""
+    import optyx.analysis as A
+    from optyx import Variable
+
+    P = case.P
+    fails = []
+
+    def again(what):
+        lp2, ex2 = extract_real(P)
+        t = lp_text(lp2) if lp2 is not None else err_text(ex2)
+        return lp2, t
+
+    # (1) a second extraction, and one with every depth threshold forced to 0 (depth-dependent paths on every tree)
+    _, t2 = again("second")
+    if t2 != impl:
+        fails.append({"what": "a second extraction of the same problem differs from the first", "second": t2[:500]})
+    old = A._RECURSION_THRESHOLD
+    try:
+        A._RECURSION_THRESHOLD = 0
+        _, t3 = again("threshold 0")
+    finally:
+        A._RECURSION_THRESHOLD = old
+    if t3 != impl:
+        fails.append({"what": "extraction with _RECURSION_THRESHOLD = 0 differs from the normal one", "got": t3[:500]})
+    # (2) other channels for the same numbers
+    names = list(lp.variables)
+    try:
+        with warnings.catch_warnings():
+            warnings.simplefilter("ignore")
+            per_var = [float(A.extract_linear_coefficient(P.objective, Variable(nm))) for nm in names[:12]]
+            c0 = float(A.extract_constant_term(P.objective))
+        if [Fraction(v) for v in per_var] != [Fraction(float(v)) for v in list(lp.c)[:12]] or Fraction(c0) != Fraction(float(lp.c0)):
+            fails.append({"what": "extract_linear_coefficient / extract_constant_term disagree with LPData.c / c0",
+                          "per_variable": per_var, "c0": c0})
+    except Exception as ex:  # noqa: BLE001
+        fails.append({"what": f"extract_linear_coefficient raised {type(ex).__name__} on an objective that was extracted"})
+    # (3) user-supplied arrays: untouched, and not aliased by the LP data
+    for a, raw, dt, shape, strides in case.arrays:
+        if a.tobytes() != raw or a.dtype != dt or a.shape != shape or a.strides != strides:
+            fails.append({"what": "a user-supplied NumPy array was modified by building / extracting the problem"})
+        for nm in ("c", "A_ub", "b_ub", "A_eq", "b_eq"):
+            arr = getattr(lp, nm)
+            if arr is not None and np.shares_memory(arr, a):
+                fails.append({"what": f"LPData.{nm} shares memory with a user-supplied array"})
+    # (4) the same objective object with the sense flipped, then bound edits: re-extraction must follow
+    try:
+        obj = P.objective
+        flipped = "max" if lp.sense == "min" else "min"
+        (P.maximize if flipped == "max" else P.minimize)(obj)
+        lp4, t4 = again("sense flip")
+        if lp4 is None or lp4.sense != flipped or lp_text(lp4).replace(f"(sense {flipped})", f"(sense {lp.sense})") != impl:
+            fails.append({"what": "after flipping the sense on the same objective object the extracted LP is not the same data with the other sense", "got": t4[:500]})
+        vs = P.variables
+        if vs:
+            v = vs[rng.randrange(len(vs))]
+            if getattr(v, "domain", "continuous") == "continuous":
+                old_b = (v.lb, v.ub)
+                v.lb, v.ub = rng.choice([None, -2.5, 0.0, 1e-9]), rng.choice([None, 3.5, 1e16])
+                lp5, t5 = again("bound edit")
+                if lp5 is None or [tuple(b) for b in lp5.bounds] != [(w.lb, w.ub) for w in vs]:
+                    fails.append({"what": "bounds edited on a variable object are not the extracted bounds", "got": t5[:400]})
+                v.lb, v.ub = old_b
+    except Exception as ex:  # noqa: BLE001
+        fails.append({"what": f"re-extraction after a sense flip / bound edit raised {type(ex).__name__}: {ex}"[:300]})
+    return fails
+
+
 def kind_of(P):
     """match key for KNOWN_FINDINGS: which special node class the problem contains"""
     from optyx.core.vectors import VectorPowerSum
@@ -1161,6 +1463,15 @@ def run(ctx) -> core.Report:
                            "each expression also extracted under permuted / enlarged variable orders; "
                            "non-trivial = distinct problems for which an LP was extracted")
     problems = [(t, P) for t, P in fixed_problems(rng)] + shared_shallow_problems(rng) + const_fold_problems(rng) + deep_problems(rng, thorough)
+    cases = [Case(t, P) for t, P in problems]
+    for fam in (typed_cases, wrapper_cases, view_cases, magnitude_cases):
+        for r in fam(rng):
+            if isinstance(r, Case):
+                cases.append(r)
+            else:   # (tag, ("build", ExceptionName)): the API refuses this form on this tree
+                k = f"{r[0].split(':')[0]}: construction raised {r[1][1]}"
+                rep.skipped[k] = rep.skipped.get(k, 0) + 1
+    problems = []
     n_rand = 12000 if thorough else 1500
     for _ in range(n_rand):
         try:
@@ -1171,15 +1482,21 @@ def run(ctx) -> core.Report:
             k = f"construction raised {type(ex).__name__}"
             rep.skipped[k] = rep.skipped.get(k, 0) + 1
             continue
-        problems.append((f"rand:{style}", P))
+        cases.append(Case(f"rand:{style}", P))
 
     ids = Ids()
     lines, metas = [], []
-    for tag, P in problems:
-        try:
-            line = problem_line(P, ids)
-        except Unsupported as ex:
-            rep.skipped["unsupported:" + str(ex)] = rep.skipped.get("unsupported:" + str(ex), 0) + 1
+    for case in cases:
+        tag, P = case.tag, case.P
+        line = None
+        if case.corr:
+            try:
+                line = problem_line(P, ids)
+            except Unsupported as ex:
+                # no syntax for it (bool / array constant …): no model comparison, the oracles still run
+                rep.skipped["correspondence unsupported:" + str(ex)] = rep.skipped.get("correspondence unsupported:" + str(ex), 0) + 1
+        if line is None:
+            metas.append((case, None, []))
             continue
         idx = len(lines)
         lines.append(line)
@@ -1212,36 +1529,50 @@ def run(ctx) -> core.Report:
                 nm = rng.choice(names)
                 sub.append(("coeff1", e, nm, len(lines)))
                 lines.append(f"coeff1 {s} {quote(nm)}")
-        metas.append((tag, P, idx, sub))
+        metas.append((case, idx, sub))
     outs = run_lean_unit(lines)
 
-    for tag, P, idx, sub in metas:
+    for case, idx, sub in metas:
+        tag, P = case.tag, case.P
         key = tag.split(":")[1] if tag.startswith("rand") else tag.split(":")[0]
         rep.histogram["style:" + key] = rep.histogram.get("style:" + key, 0) + 1
         rep.evaluations += 1
         lp, ex = extract_real(P)
         impl = lp_text(lp) if lp is not None else err_text(ex)
-        model = outs[idx]
-        if impl != model and not isinstance(ex, RecursionError):
-            rep.corr_mismatches.append({"tag": tag, "problem": lines[idx][:1500], "impl": impl[:700], "model": model[:700]})
+        pline = lines[idx] if idx is not None else problem_payload(P)
+        if idx is not None:
+            model = outs[idx]
+            if impl != model and not isinstance(ex, RecursionError):
+                rep.corr_mismatches.append({"tag": tag, "problem": pline[:1500], "problem_full": pline if len(pline) < 60000 else None,
+                                            "impl": impl[:700], "model": model[:700]})
         if lp is not None:
-            rep.nontrivial.add(hash(lines[idx]))
+            rep.nontrivial.add(hash(pline) if idx is not None else hash(tag))
             rep.histogram["extracted"] = rep.histogram.get("extracted", 0) + 1
-            for f in lp_oracle(P, lp, rng, tag):
-                f.update({"problem": lines[idx], "tag": tag, "extracted": impl[:700], "dag": dag_payload(P)})
+            fs = lp_oracle(P, lp, rng, tag, values=case.rel_tol is None)
+            if case.expect is not None:
+                rep.histogram["checked against the recipe's exact LP"] = rep.histogram.get("checked against the recipe's exact LP", 0) + 1
+                fs += expect_oracle(case, lp)
+            if case.expect is not None or case.arrays or rng.random() < 0.2:
+                rep.histogram["history / channel re-checks"] = rep.histogram.get("history / channel re-checks", 0) + 1
+                fs += history_checks(case, lp, impl, rng)
+            for f in fs:
+                f.update({"problem": pline, "tag": tag, "extracted": impl[:700], "dag": dag_payload(P)})
                 k = kind_of(P)
                 if k:
                     f["kind"] = k
                 rep.oracle_failures.append(f)
-            if len(rep.samples) < 6 and 200 < len(lines[idx]) < 700 and lp.A_ub is not None:
-                rep.samples.append({"problem": lines[idx], "lp": impl})
+            if idx is not None and len(rep.samples) < 6 and 200 < len(pline) < 700 and lp.A_ub is not None:
+                rep.samples.append({"problem": pline, "lp": impl})
         else:
             nm = type(ex).__name__
             rep.histogram["raised:" + nm] = rep.histogram.get("raised:" + nm, 0) + 1
+            if case.expect is not None and nm == "NonLinearError":
+                k = f"{tag.split(':')[0]}: an affine recipe was rejected as non-linear (conservative, counted)"
+                rep.skipped[k] = rep.skipped.get(k, 0) + 1
             if nm == "RecursionError":
                 rep.skipped["RecursionError of the real extractor (CPython stack limit)"] = rep.skipped.get("RecursionError of the real extractor (CPython stack limit)", 0) + 1
             elif nm not in ERRNAMES:
-                rep.oracle_failures.append({"what": f"extract raised an unexpected {nm}: {ex}"[:300], "problem": lines[idx], "tag": tag})
+                rep.oracle_failures.append({"what": f"extract raised an unexpected {nm}: {ex}"[:300], "problem": pline, "tag": tag})
         # per-expression functions
         for cmd, e, arg, li in sub:
             if cmd == "path":
@@ -1302,22 +1633,65 @@ def kind_of_expr(e):
 
 
 def search(ctx, rep):
-    """correspondence / proof broken, nothing failed yet: many more random problems, oracle only"""
+    """correspondence / proof broken, nothing failed yet.  Order (checklist item 16): (1) the mismatching problems
+    themselves, rebuilt, judged by the oracle at many points and through the history / channel re-checks; (2) the
+    recipe families (exact expected LPs) and the fixed families; (3) fresh random problems."""
     rng = core.Rng(ctx["seed"] + 15485863)
-    pool = [P for _, P in fixed_problems(rng)] + [P for _, P in shared_shallow_problems(rng)] + [P for _, P in const_fold_problems(rng)] + [P for _, P in deep_problems(rng, False)]
-    for _ in range(15000):
-        pool.append(rand_problem(rng)[0])
-    for P in pool:
-        lp, ex = extract_real(P)
+
+    def judge(case, rounds=1):
+        lp, ex = extract_real(case.P)
         if lp is None:
-            continue
-        fs = lp_oracle(P, lp, rng, "search")
+            return None
+        impl = lp_text(lp)
+        fs = []
+        for _ in range(rounds):
+            fs += lp_oracle(case.P, lp, rng, "search", values=case.rel_tol is None)
+            if fs:
+                break
+        if not fs and case.expect is not None:
+            fs += expect_oracle(case, lp)
+        if not fs:
+            fs += history_checks(case, lp, impl, rng)
         if fs:
             f = fs[0]
-            f.update({"problem": problem_payload(P), "extracted": lp_text(lp)[:700], "dag": dag_payload(P)})
-            k = kind_of(P)
+            f.update({"problem": problem_payload(case.P), "tag": case.tag, "extracted": impl[:700], "dag": dag_payload(case.P)})
+            k = kind_of(case.P)
             if k:
                 f["kind"] = k
+            return f
+        return None
+
+    seen = set()
+    for mm in rep.corr_mismatches:
+        line = mm.get("problem_full")
+        if not line or line in seen or len(seen) > 300:
+            continue
+        seen.add(line)
+        try:
+            P = rebuild_problem(line)
+        except Exception:  # noqa: BLE001
+            continue
+        f = judge(Case("mismatch:" + str(mm.get("tag")), P), rounds=8)
+        if f:
+            return f
+    for fam in (typed_cases, wrapper_cases, view_cases, magnitude_cases):
+        for r in fam(rng):
+            if isinstance(r, Case):
+                f = judge(r)
+                if f:
+                    return f
+    pool = fixed_problems(rng) + shared_shallow_problems(rng) + const_fold_problems(rng) + deep_problems(rng, False)
+    for t, P in pool:
+        f = judge(Case(t, P))
+        if f:
+            return f
+    for _ in range(15000):
+        try:
+            P = rand_problem(rng)[0]
+        except Exception:  # noqa: BLE001
+            continue
+        f = judge(Case("rand", P))
+        if f:
             return f
     return None
 
